@@ -17,6 +17,9 @@ mod table_layouter;
 
 pub use table_layouter::{SimpleTableLayouter, TableLayouter};
 
+#[cfg(feature = "verif-hooks")]
+pub mod verif_hooks;
+
 use crate::utils::rational::Rational;
 
 /// A chip implements a set of instructions that can be used by gadgets.
@@ -290,6 +293,8 @@ impl<F: Field> Region<'_, F> {
             self.region.assign_advice(&|| annotation().into(), column, offset, &mut || {
                 let v = to();
                 let value_f = v.to_field();
+                #[cfg(feature = "verif-hooks")]
+                let value_f = verif_hooks::on_assign_advice::<F>(value_f);
                 value = v;
                 value_f
             })?;
